@@ -75,4 +75,54 @@ def flipTwoParty (C : Crs) (c hc : Int) (peer : List (Option Int)) : Except Err 
 /-- the coin as both parties compute it: `(0 + a_0) mod q + a_1 mod q` -/
 def coin (C : Crs) (a0 a1 : Int) : Int := ((0 + a0) % C.q + a1) % C.q
 
+/-! ### public-coin proof of knowledge of the key share (C03): the challenge is a jointly flipped coin -/
+
+structure PcOutcome where
+  sent : List Int
+  result : Bool
+  threw : Bool := false
+  deriving Repr
+
+def sendsOf (acts : List Action) : List Int :=
+  acts.filterMap fun a => match a with | .send v => some v | _ => none
+
+/-- `KeyGenerationProtocol_ProveKey_interactive_publiccoin`: commitment exponent `r`, coin-flip coins
+    `c0`, `hc0`; `peer`: the verifier's lines.  The coin lives in the group of the CRS `C` (order
+    `C.q`), which need not be the VTMF group: it is reduced modulo the VTMF's `q`. -/
+def keyProvePC (S : Vtmf.State) (C : Crs) (r c0 hc0 : Int) (peer : List (Option Int)) :
+    Except Err PcOutcome := do
+  let m1 ← fspowm S.tabG S.G.g r S.G.p
+  let fl ← flipTwoParty C c0 hc0 peer
+  let sent := m1 :: sendsOf fl.actions
+  if fl.threw then return ⟨sent, false, true⟩
+  match fl.result with
+  | none => return ⟨sent, false, false⟩
+  | some coin =>
+    let c ← mpzMod coin S.G.q
+    match Sigma.keyProveRespond S r c with
+    | none => return ⟨sent, false, false⟩
+    | some m2 => return ⟨sent ++ [m2], true, false⟩
+
+/-- `KeyGenerationProtocol_VerifyKey_interactive_publiccoin`; `peer`: the prover's lines
+    (`m_1`, the three coin-flip lines, `m_2`) -/
+def keyVerifyPC (kind : Sigma.Kind) (S : Vtmf.State) (C : Crs) (key c1 hc1 : Int)
+    (peer : List (Option Int)) : Except Err PcOutcome := do
+  if !Sigma.checkElement kind S.G key then return ⟨[], false, false⟩
+  match peer with
+  | [] | none :: _ => return ⟨[], false, true⟩
+  | some m1 :: rest =>
+    if !Sigma.checkElement kind S.G m1 then return ⟨[], false, false⟩
+    let fl ← flipTwoParty C c1 hc1 rest
+    let sent := sendsOf fl.actions
+    if fl.threw then return ⟨sent, false, true⟩
+    match fl.result with
+    | none => return ⟨sent, false, false⟩
+    | some coin =>
+      let c ← mpzMod coin S.G.q
+      match rest.drop 3 with
+      | [] | none :: _ => return ⟨sent, false, true⟩
+      | some m2 :: _ =>
+        let ok ← Sigma.keyVerifyFinal kind S key m1 c m2
+        return ⟨sent, ok, false⟩
+
 end Tmcg.CoinFlip
